@@ -87,8 +87,11 @@ def settings(rng, quick):
 
 
 def schedule_for(rng, nsteps, max_retries, adaptive, kind):
-    if kind == "none" or not adaptive:
+    if kind == "none":
         return {}
+    if not adaptive:
+        # with adaptivity off a single refusal is final: the step is never retried with another dt
+        return {int(rng.integers(1, nsteps)): 1} if kind == "exhaust" else {}
     if kind == "bursts":
         return {int(s): int(rng.integers(1, max_retries + 2)) for s in rng.choice(nsteps, size=max(1, nsteps // 4), replace=False)}
     if kind == "exhaust":
@@ -197,7 +200,7 @@ def eval_run(ctx, dev, kw, st, kind, nsteps, with_model=True):
             t += dt
         # exhaustion must raise, never continue
         for s, nforce in sched.items():
-            if nforce >= st["max_solve_retries"] + 2 and (raised_at is None or raised_at > s):
+            if nforce >= (st["max_solve_retries"] + 2 if st["adaptive"] else 1) and (raised_at is None or raised_at > s):
                 fail("exhaustion-continues", f"step {s}: {nforce} consecutive refusals (max_solve_retries={st['max_solve_retries']}) did not raise", step=s)
         if raised_at is not None:
             ctx.count("runs_raised")
